@@ -82,7 +82,7 @@ def run(prog: Program, rep: Report, tier: str):
                          "(x|keys, condition), elementwise post-processing only); the gufunc signature is built from "
                          "shape (input of _log_prob, output of the samplers), (2,) for keys, () for log-probs, with "
                          "cond_shape appended / argument 1 excluded iff cond_shape is None; the per-element shape "
-                         "check is the function handed to vectorize; the bijection vectoriser agrees", minimum=8)
+                         "check is the function handed to vectorize; the bijection vectoriser agrees and its four methods lift the method of the same name (log_det=True exactly for the *_and_log_det pair)", minimum=12)
     for m, (args, src) in PUBLIC.items():
         got = Interp(prog, no_inline=NOIN).eval_method(c, m, args)
         want = eval_ref_method(prog, c, src, args, no_inline=NOIN)
@@ -101,6 +101,16 @@ def run(prog: Program, rep: Report, tier: str):
                                no_inline={"flowjax.utils._get_ufunc_signature"})
         compare(rep, "C06.lift", method_site(prog, vb, "vectorize"),
                 f"_VectorizedBijection.vectorize(log_det={ldflag[1]})", got, want, "bijection vectoriser")
+    for meth in ("transform", "inverse", "transform_and_log_det", "inverse_and_log_det"):
+        flag = ", log_det=True" if meth.endswith("log_det") else ""
+        src = (f"def {meth}(self, x, condition=None):\n"
+               f"    return self.vectorize(self.bijection.{meth}{flag})(x, condition)\n")
+        got = Interp(prog, no_inline={"flowjax.bijections.bijection._VectorizedBijection.vectorize"}).eval_method(
+            vb, meth, [XS, CONDS])
+        want = eval_ref_method(prog, vb, src, [XS, CONDS],
+                               no_inline={"flowjax.bijections.bijection._VectorizedBijection.vectorize"})
+        compare(rep, "C06.lift", method_site(prog, vb, meth), f"_VectorizedBijection.{meth}", got, want,
+                "vectorised bijection method")
     rep.rule("C06.keys", "_get_sample_keys returns reshape(split(key, max(1, prod(sample_shape + leading condition "
                          "shape))), (*key_shape, 2)) with the leading shape cut at -cond_ndim or None; on every path "
                          "(no shortcut that broadcasts one key); cond_ndim = None iff unconditional", minimum=3)
